@@ -164,13 +164,24 @@ impl SubSocket {
         let message: ZmqMessage = SubSocketBackend::create_subs_message(subscription, msg_type);
         let mut iter = self.backend.peers.begin_async().await;
 
+        // A failing peer must not keep the others from being updated: finish the
+        // round, then forget the failed peers and report the first error.
+        let mut failed = Vec::new();
+        let mut first_error = None;
         while let Some(mut peer) = iter {
-            peer.send_queue
-                .send(Message::Message(message.clone()))
-                .await?;
+            if let Err(e) = peer.send_queue.send(Message::Message(message.clone())).await {
+                failed.push(peer.key().clone());
+                first_error.get_or_insert(e);
+            }
             iter = peer.next_async().await;
         }
-        Ok(())
+        for peer_id in failed {
+            self.backend.peer_disconnected(&peer_id);
+        }
+        match first_error {
+            Some(e) => Err(e.into()),
+            None => Ok(()),
+        }
     }
 }
 
